@@ -170,18 +170,24 @@ Section Reach.
     induction ts as [|t r IH]; cbn [Hsm.try_transitions]; [apply so_ret|].
     apply so_bind; [apply so_execute|intros ok]. destruct ok; [apply so_ret|exact IH].
   Qed.
-  Lemma so_offer_loop sc ts order : forall done result, steps_ok (offer_loop hm ev c sc ts order done result).
+  Lemma so_offer_loop_gen attempt hc sc order : (forall p, steps_ok (attempt p)) ->
+    forall done result, steps_ok (offer_loop_gen attempt hc sc order done result).
   Proof.
-    induction order as [|p rest IH]; intros done result; cbn [offer_loop]; [apply so_ret|].
+    intros HA. induction order as [|p rest IH]; intros done result; cbn [offer_loop_gen]; [apply so_ret|].
     destruct (orb _ _); [apply IH|]. apply so_bind; [apply so_get|intros f].
     destruct (negb (active f (sc ++ p))); [apply IH|].
-    apply so_bind; [apply so_run_cbs|intros _]. apply so_bind; [apply so_try_transitions|intros ok].
-    destruct ok; apply IH.
+    apply so_bind; [apply HA|intros ok].
+    apply so_bind; [destruct ok; apply IH|intros r; apply so_ret].
+  Qed.
+  Lemma so_offer_loop sc ts order done result : steps_ok (offer_loop hm ev c sc ts order done result).
+  Proof.
+    unfold offer_loop. apply so_offer_loop_gen. intros p.
+    apply so_bind; [apply so_run_cbs|intros _; apply so_try_transitions].
   Qed.
   Lemma so_trigger_nested sc ts key : steps_ok (trigger_nested hm ev c sc ts key).
   Proof.
     unfold trigger_nested. apply so_bind; [apply so_get|intros f]. destruct (sub f sc); [|apply so_raise].
-    apply so_offer_loop.
+    apply so_bind; [apply so_offer_loop|intros r; apply so_ret].
   Qed.
 
   Lemma so_dispatch_t e : forall t sc, steps_ok (dispatch_t hm ev c e sc t).
